@@ -706,7 +706,7 @@ def run(case, drv):
         k = 0
     model = drv.call("c08.convert", conv=conv, src=before, k=k)
     fresh_ok = d["labels_free"] or d["fresh"]
-    dom = bool(d["static_ok"] and fresh_ok)
+    dom = bool(d["static_ok"] and fresh_ok and d["src_ok"])
     nontrivial = (not d["fresh"]) or sum(1 for m in before["maps"] for _, f in m["lists"] if f["index"]) >= 2
     if not d["fresh"]:
         tags.append("labels-not-fresh")
